@@ -76,6 +76,12 @@ func runRPC(t *testing.T, rc *core.RunCtx, prop string) {
 	if len(subset) == 0 {
 		subset = am.S{user[0]}
 	}
+	// the allow / skip list is the caller's: it need not be in schema order
+	for i := len(subset) - 1; i > 0; i-- {
+		if j := i - tp.Draw(i+1); j != i {
+			subset[i], subset[j] = subset[j], subset[i]
+		}
+	}
 	intervals := []time.Duration{0, 20 * time.Millisecond, 250 * time.Millisecond, 2 * time.Second}
 	iv := intervals[tp.Draw(len(intervals))]
 	genOps := func(n int, remote bool, pre string) []rpcOp {
@@ -98,6 +104,8 @@ func runRPC(t *testing.T, rc *core.RunCtx, prop string) {
 		return ops
 	}
 	lops := genOps(tp.Range(0, 6), false, "l")
+	// history the source already has when the client connects
+	pops := genOps(tp.Draw(5), false, "p")
 	rops := genOps(tp.Range(0, 5), true, "r")
 	// faults
 	type fault struct {
@@ -119,7 +127,7 @@ func runRPC(t *testing.T, rc *core.RunCtx, prop string) {
 	if tp.Draw(4) == 0 {
 		sites["rpc.push.busy"] = 3
 	}
-	rc.Desc = fmt.Sprintf("user=%v mode=%s noschema=%v subset=%v push=%v local=%v remote=%v faults=%v sites=%v", uschema, mode, noSchema, subset, iv, lops, rops, faults, sites)
+	rc.Desc = fmt.Sprintf("user=%v mode=%s noschema=%v subset=%v push=%v pre=%v local=%v remote=%v faults=%v sites=%v", uschema, mode, noSchema, subset, iv, pops, lops, rops, faults, sites)
 
 	core.Bubble(t, rc, func(s *core.Sim) {
 		s.Horizon = 2 * time.Second
@@ -280,10 +288,28 @@ func runRPC(t *testing.T, rc *core.RunCtx, prop string) {
 		}
 		booted := false
 		s.Go("boot", func() {
+			for _, o := range pops {
+				var st am.S
+				for _, j := range o.states {
+					st = append(st, user[j])
+				}
+				if o.kind == 1 {
+					src.Remove(st, nil)
+				} else {
+					src.Add(st, nil)
+				}
+			}
 			srv.Start(nil)
 			cli.Start(nil)
 			if ready(60*time.Second) && cli.NetMach != nil {
 				bindMirror()
+				// the handshake hands over the source's clock as it is: nothing
+				// has been pushed, skipped or lost yet
+				if got, want := proj(cli.NetMach.Time(nil), cli.NetMach.StateNames()), proj(hist[len(hist)-1].tm, srcNames); got != want {
+					s.Fail(prop+"/handshake-mismatch/"+mode, "after the handshake the network machine shows%s for %v, the source has%s", got, tracked, want)
+					return
+				}
+				s.Probe("handshake-nonzero-" + fmt.Sprint(len(pops) > 0))
 				booted = true
 				s.SetTimeWeight(8)
 			}
